@@ -198,6 +198,28 @@ def perform(acl: Acl, op: dict):
         if leaf is not None:
             leaf.sequence = op["n"]
         return None
+    if k == "scribble_ipnets":
+        # a caller grows the list it got from ipnets(): the list is the caller's
+        from ipaddress import IPv4Network
+        leaf = leaf_at(acl, op["i"], op["j"])
+        if isinstance(leaf, Ace):
+            addr = leaf.srcaddr if op["side"] == "src" else leaf.dstaddr
+            nets = addr.ipnets()
+            nets.append(IPv4Network("0.0.0.0/0"))
+            for it in addr.items:
+                got = it.ipnets()
+                got.append(IPv4Network("0.0.0.0/0"))
+        return None
+    if k == "foreign_parse":
+        # the ACL's body text offered to a group of the other platform (lines valid here may be
+        # rejected and logged there); the throw-away object is dropped at once
+        other = "nxos" if acl.platform == "ios" else "ios"
+        body = "\n".join(o.line for o in leaves(acl))
+        try:
+            AceGroup(body, platform=other)
+        except (ValueError, TypeError):
+            pass
+        return None
     if k == "set_ports":
         leaf = leaf_at(acl, op["i"], op["j"])
         if isinstance(leaf, Ace):
